@@ -159,8 +159,30 @@ pub fn set_id(w: &mut [u8], n: u16) {
 
 //------------ TSIG RR codec (independent of domain::rdata::tsig) -------------
 
+/// What an adversary can do to the structure of the record (spec/Tsig.tla,
+/// fields cls / ttl / rdx / rdadj / oladj of a TSIG record).
+#[derive(Clone, Debug, PartialEq)]
+pub struct Shape {
+    /// CLASS and TTL of the RR (ANY, 0)
+    pub cls: u16,
+    pub ttl: u32,
+    /// octets behind Other Data inside the RDATA
+    pub rdx: Vec<u8>,
+    /// what RDLENGTH says more (less) than the RDATA has
+    pub rdadj: i32,
+    /// what Other Len says more than there is other-data
+    pub oladj: u16,
+}
+impl Default for Shape {
+    fn default() -> Self {
+        Shape { cls: 255, ttl: 0, rdx: vec![], rdadj: 0, oladj: 0 }
+    }
+}
+
 #[derive(Clone, Debug, PartialEq)]
 pub struct TsigRr {
+    pub x: Shape,
+    /// owner and algorithm name as on the wire (possibly ending in a compression pointer)
     pub name: Vec<u8>,
     pub alg: Vec<u8>,
     pub time: u64,
@@ -176,22 +198,39 @@ pub fn u48(t: u64) -> [u8; 6] {
     [b[2], b[3], b[4], b[5], b[6], b[7]]
 }
 
+/// The name at *p, expanded (RFC 1035 4.1.4: pointers to earlier positions
+/// only); *p ends up behind the name field.
 fn take_name(w: &[u8], p: &mut usize) -> Option<Vec<u8>> {
-    let s = *p;
+    let mut out = vec![];
+    let mut q = *p;
+    let mut jumped = false;
     loop {
-        let l = *w.get(*p)? as usize;
+        let l = *w.get(q)? as usize;
+        if l >= 192 {
+            let t = ((l - 192) << 8) | *w.get(q + 1)? as usize;
+            if t >= q {
+                return None;
+            }
+            if !jumped {
+                *p = q + 2;
+                jumped = true;
+            }
+            q = t;
+            continue;
+        }
         if l > 63 {
             return None;
         }
-        *p += 1 + l;
+        out.extend_from_slice(w.get(q..q + 1 + l)?);
+        q += 1 + l;
         if l == 0 {
             break;
         }
     }
-    if *p > w.len() {
-        return None;
+    if !jumped {
+        *p = q;
     }
-    Some(w[s..*p].to_vec())
+    Some(out)
 }
 
 impl TsigRr {
@@ -203,25 +242,31 @@ impl TsigRr {
         r.extend_from_slice(&self.mac);
         r.extend_from_slice(&self.oid.to_be_bytes());
         r.extend_from_slice(&self.err.to_be_bytes());
-        r.extend_from_slice(&(self.other.len() as u16).to_be_bytes());
+        r.extend_from_slice(&(self.other.len() as u16 + self.x.oladj).to_be_bytes());
         r.extend_from_slice(&self.other);
+        r.extend_from_slice(&self.x.rdx);
         r
     }
     pub fn encode(&self) -> Vec<u8> {
         let rd = self.rdata();
         let mut v = self.name.clone();
-        v.extend_from_slice(&[0, 250, 0, 255, 0, 0, 0, 0]);
-        v.extend_from_slice(&(rd.len() as u16).to_be_bytes());
+        v.extend_from_slice(&[0, 250]);
+        v.extend_from_slice(&self.x.cls.to_be_bytes());
+        v.extend_from_slice(&self.x.ttl.to_be_bytes());
+        v.extend_from_slice(&((rd.len() as i32 + self.x.rdadj) as u16).to_be_bytes());
         v.extend(rd);
         v
     }
-    /// Parse an uncompressed TSIG RR that starts at `off` and runs to the end of `w`.
+    /// Parse a well-formed TSIG RR (any CLASS / TTL) that starts at `off`;
+    /// names are returned expanded.
     pub fn parse_at(w: &[u8], off: usize) -> Option<(TsigRr, usize)> {
         let mut p = off;
         let name = take_name(w, &mut p)?;
-        if w.get(p..p + 8)? != [0, 250, 0, 255, 0, 0, 0, 0] {
+        if w.get(p..p + 2)? != [0, 250] {
             return None;
         }
+        let cls = u16::from_be_bytes([*w.get(p + 2)?, *w.get(p + 3)?]);
+        let ttl = u32::from_be_bytes([*w.get(p + 4)?, *w.get(p + 5)?, *w.get(p + 6)?, *w.get(p + 7)?]);
         p += 8;
         let rdlen = u16::from_be_bytes([*w.get(p)?, *w.get(p + 1)?]) as usize;
         p += 2;
@@ -251,7 +296,7 @@ impl TsigRr {
         if p != end {
             return None;
         }
-        Some((TsigRr { name, alg, time, fudge, mac, oid, err, other }, end))
+        Some((TsigRr { x: Shape { cls, ttl, ..Shape::default() }, name, alg, time, fudge, mac, oid, err, other }, end))
     }
 }
 
@@ -286,6 +331,19 @@ pub fn apply_adv(wire: &mut Vec<u8>, off: usize, op: &Value, last_full: &[u8]) -
         "SetErr" => { rr.err = arg as u16; }
         "SetOther" | "SetOther6" => { rr.other = if arg == 6 { u48(5).to_vec() } else { vec![1, 2] }; }
         "ForgeBadSig" | "ForgeBadKey" | "ForgeBadTime" => { wire[3] = (wire[3] & 0xf0) | 9; rr.err = arg as u16; }
+        // the names of the record as names
+        "AlgExtra" | "KeyExtra" | "AlgDouble" | "AlgSigAlg" | "AlgRoot" | "KeyRoot" | "AlgPrefix" | "KeyFewer"
+        | "AlgUpper" | "AlgCompressed" | "KeyCompressed" | "AlgBadPtr" | "KeyBadPtr" => {
+            let f = if kind.starts_with("Alg") { &mut rr.alg } else { &mut rr.name };
+            *f = name_variant(kind, f);
+        }
+        "ClassIn" => { rr.x.cls = 1; }
+        "ClassNone" => { rr.x.cls = 254; }
+        "TtlOne" => { rr.x.ttl = 1; }
+        "RdTrail" => { rr.x.rdx = vec![0]; }
+        "RdLong" => { rr.x.rdadj = 1; }
+        "RdShort" => { rr.x.rdadj = -1; }
+        "OtherLenLong" => { rr.x.oladj = 6; }
         "StripTsig" => {
             wire.truncate(off);
             let ar = get_ar(wire);
@@ -302,6 +360,23 @@ pub fn apply_adv(wire: &mut Vec<u8>, off: usize, op: &Value, last_full: &[u8]) -
         wire.extend(rr.encode());
     }
     Ok(signed)
+}
+
+/// MC_Tsig!NameVariant
+pub fn name_variant(kind: &str, w: &[u8]) -> Vec<u8> {
+    let front = &w[..w.len() - 1];
+    let cat = |a: &[u8], b: &[u8]| -> Vec<u8> { let mut v = a.to_vec(); v.extend_from_slice(b); v };
+    match kind {
+        "AlgExtra" | "KeyExtra" => cat(front, &name_wire("example.")),
+        "AlgDouble" => cat(front, w),
+        "AlgSigAlg" => cat(front, &name_wire("sig-alg.reg.int.")),
+        "AlgRoot" | "KeyRoot" => vec![0],
+        "AlgPrefix" => cat(&[1, b'x'], w),
+        "KeyFewer" => w[w[0] as usize + 1..].to_vec(),
+        "AlgUpper" => w.iter().map(|c| c.to_ascii_uppercase()).collect(),
+        "AlgCompressed" | "KeyCompressed" => cat(front, &[192, 3]),
+        _ => cat(front, &[255, 255]),
+    }
 }
 
 //------------ term evaluator -------------------------------------------------
